@@ -96,6 +96,7 @@ def run(chk):
     coq_cases.check_validate(chk, [(flows[i].model_line(), model[i].split("|")[0].strip(), model[i].split("|")[1].strip() == "wf=true")
                                    for i in range(0, len(flows), step)])
     dist = {"accepted": 0, "rejected": 0, "by_label": {}, "classes": {}}
+    class_diff = None
     for i, (f, mv) in enumerate(zip(flows, model)):
         verdict, wf, classes = [x.strip() for x in mv.split("|")]
         mclasses = set(c for c in classes.split(",") if c)
@@ -121,11 +122,14 @@ def run(chk):
             chk.violate("cff rejected a flow without a diagnostic naming its file: %s" % f.model_line(),
                         {"flow": f.model_line(), "output_tail": out[-2000:]})
             break
-        if iclasses != mclasses:
-            chk.fail_no_input("diagnostic classes differ between cff %s and the model %s on %s" % (sorted(iclasses), sorted(mclasses), f.model_line()),
-                              {"theorem": "correspondence ValidateModel.validate ~ compileFlow (diagnostic classes)",
-                               "flow": f.model_line(), "cff_messages": permsgs.get(i, []), "model": mv})
-            break
+        if iclasses != mclasses and class_diff is None:
+            # same verdict, different reasons: a broken correspondence, not yet a violation - keep looking
+            # for a flow on which the verdict itself is wrong
+            class_diff = ("diagnostic classes differ between cff %s and the model %s on %s" % (sorted(iclasses), sorted(mclasses), f.model_line()),
+                          {"theorem": "correspondence ValidateModel.validate ~ compileFlow (diagnostic classes)",
+                           "flow": f.model_line(), "cff_messages": permsgs.get(i, []), "model": mv})
+    if class_diff is not None and not chk.violations:
+        chk.fail_no_input(*class_diff)
     chk.cov["traces_validated_against_impl"] = len(flows)
     chk.sample({"flow": flows[0].model_line(), "label": flows[0].label, "model": model[0], "cff": permsgs.get(0, [])})
 
